@@ -21,7 +21,7 @@ def m(prop, f, old, new, note, expect='detect'):
 # ---------------- C01
 m('C01', B, '\tif !ok {\n\t\tgb.affinityMap[bindKey] = sc\n\t}', '\tgb.affinityMap[bindKey] = sc\n\t_ = ok', 'BIND re-binds an already bound key')
 m('C01', P, '\t\tif info.Err != nil {\n\t\t\treturn\n\t\t}\n', '\t\tif info.Err != nil && cmd != grpc_gcp.AffinityConfig_BIND {\n\t\t\treturn\n\t\t}\n', 'failed BIND still binds')
-m('C01', P, 'p.gb.bindSubConn(bk, scRef.subConn)', 'p.gb.bindSubConn(bk, p.scRefs[0].subConn)', 'key bound to another slot')
+m('C01', P, 'p.gb.bindSubConn(bk, scRef.getSubConn())', 'p.gb.bindSubConn(bk, p.scRefs[0].getSubConn())', 'key bound to another slot')
 m('C01', P, 'if hasGCPCtx && (cmd == grpc_gcp.AffinityConfig_BOUND || cmd == grpc_gcp.AffinityConfig_UNBIND) {', 'if hasGCPCtx && cmd == grpc_gcp.AffinityConfig_BOUND {', 'UNBIND calls lose their key')
 m('C01', B, 'if gb.scStates[sc] != connectivity.Ready {', 'if gb.scStates[sc] == connectivity.TransientFailure {', 'bound slot returned without READY test')
 m('C01', B, '\t\t\treturn nil, true\n\t\t}\n\t\treturn gb.scRefs[sc], true', '\t\t\treturn nil, false\n\t\t}\n\t\treturn gb.scRefs[sc], true', 'bound key with non-READY home is load-balanced')
@@ -36,7 +36,7 @@ m('C02', P, 'cnt < minStreamsCnt', 'cnt > minStreamsCnt', 'least-busy comparator
 m('C02', P, 'cnt < minStreamsCnt', 'cnt <= minStreamsCnt', 'ties resolved differently', 'silent')
 m('C02', P, 'cnt < minStreamsCnt', 'minStreamsCnt > cnt', 'operands swapped', 'silent')
 m('C02', B, 'if scState == connectivity.Ready {\n\t\t\treadyRefs', 'if scState == connectivity.Ready || scState == connectivity.Idle {\n\t\t\treadyRefs', 'picker snapshot contains non-READY slots')
-m('C02', B, '\t\tgb.scRefs[sc] = scRef\n\t\tscRef.subConn = sc', '\t\tscRef = &subConnRef{subConn: sc, stateSignal: scRef.stateSignal, lastResp: scRef.lastResp}\n\t\tgb.scRefs[sc] = scRef\n\t\tscRef.subConn = sc', 'refresh swap allocates a new slot (counts lost)')
+m('C02', B, '\t\tgb.scRefs[sc] = scRef\n\t\tscRef.mu.Lock()\n\t\tscRef.subConn = sc', '\t\tscRef = &subConnRef{subConn: sc, stateSignal: scRef.stateSignal, lastResp: scRef.lastResp}\n\t\tgb.scRefs[sc] = scRef\n\t\tscRef.mu.Lock()\n\t\tscRef.subConn = sc', 'refresh swap allocates a new slot (counts lost)')
 m('C02', P, '\t\t\tp.gb.unbindSubConn(boundKey)', '\t\t\tp.gb.unbindSubConn(boundKey)\n\t\t\tscRef.streamsDecr()', 'double decrement on UNBIND')
 m('C02', P, '\tcallStarted := time.Now()', '\tif info.Ctx.Err() != nil {\n\t\treturn balancer.PickResult{}, info.Ctx.Err()\n\t}\n\tcallStarted := time.Now()', 'Pick can fail after the placement was counted')
 m('C02', P, '\tif scRef != nil {\n\t\tscRef.streamsIncr()\n\t}', '\tif scRef != nil {\n\t\tp.scRefs[0].streamsIncr()\n\t}', 'increment on a different slot')
@@ -75,7 +75,7 @@ m('C06', B, '\tif s != connectivity.Ready {\n\t\t\t// Ignore the replacement sc 
 m('C06', B, '\tgb.mu.Lock()\n\tdefer gb.mu.Unlock()\n\tif ref.refreshing {\n\t\treturn\n\t}', '\tgb.mu.Lock()\n\tif ref.refreshing {\n\t\treturn\n\t}\n\tdefer gb.mu.Unlock()', 'lock leaked on an early return')
 
 # ---------------- C07
-m('C07', P, '\tif callStarted.Before(scRef.lastResp) {\n\t\treturn\n\t}\n', '', 'calls started before the last response are counted')
+m('C07', P, '\tif callStarted.Before(scRef.getLastResp()) {\n\t\treturn\n\t}\n', '', 'calls started before the last response are counted')
 m('C07', P, 'rpcErr.Error() != deErr.Error() || !ok || dl.After(time.Now())', '!ok || dl.After(time.Now())', 'server-side deadline errors count as unresponsive')
 m('C07', B, '\tgb.refreshingScRefs[sc] = ref\n\tsc.Connect()', '\tgb.refreshingScRefs[sc] = ref\n\tgb.cc.RemoveSubConn(ref.subConn)\n\tsc.Connect()', 'old connection removed when the refresh starts')
 m('C07', B, '\t\t// Allow a later refresh attempt.\n\t\tref.refreshing = false\n', '', 'failed replacement disables later refreshes (F5)')
@@ -204,6 +204,13 @@ m('C17', B, '\t\t\tApiConfig: proto.Clone(cfg.ApiConfig).(*pb.ApiConfig),', '\t\
 m('C17', B, '\t\t\tApiConfig: proto.Clone(cfg.ApiConfig).(*pb.ApiConfig),', '\t\t\tApiConfig: &pb.ApiConfig{ChannelPool: proto.Clone(cfg.GetChannelPool()).(*pb.ChannelPoolConfig), Method: proto.Clone(cfg.ApiConfig).(*pb.ApiConfig).GetMethod()},', 'hand-built copy from clones only', 'silent')
 m('C16', G, '\t// Add missing pools.\n\tfor e := range validPools {\n\t\tif _, ok := gme.pools[e]; !ok {\n\t\t\t// This creates a ClientConn with the gRPC-GCP balancer managing connection pool.\n\t\t\tconn, err := gme.dialFunc(context.Background(), e, gme.opts...)\n\t\t\tif err != nil {\n\t\t\t\treturn err\n\t\t\t}\n\t\t\tif gme.log.V(FINE) {\n\t\t\t\tgme.log.Infof("created new channel pool for %q endpoint.", e)\n\t\t\t}\n\t\t\tgme.pools[e] = newMonitoredConn(e, conn, gme)\n\t\t}\n\t}\n', '\t// Add missing pools.\n\tfresh := map[string]*monitoredConn{}\n\tfor e := range validPools {\n\t\tif _, ok := gme.pools[e]; !ok {\n\t\t\t// This creates a ClientConn with the gRPC-GCP balancer managing connection pool.\n\t\t\tconn, err := gme.dialFunc(context.Background(), e, gme.opts...)\n\t\t\tif err != nil {\n\t\t\t\treturn err\n\t\t\t}\n\t\t\tif gme.log.V(FINE) {\n\t\t\t\tgme.log.Infof("created new channel pool for %q endpoint.", e)\n\t\t\t}\n\t\t\tfresh[e] = newMonitoredConn(e, conn, gme)\n\t\t}\n\t}\n\tfor e, mc := range fresh {\n\t\tgme.pools[e] = mc\n\t}\n', 'dialed pools registered nowhere until every dial has succeeded (seed C16-1)')
 m('C19', CS, '\tif err != nil {\n\t\treturn bytes, err\n\t}\n\tcrc32c', '\tif err != nil || len(bytes) == 0 {\n\t\treturn bytes, err\n\t}\n\tcrc32c', 'empty encodings are returned without the checksum field (seed C19-1)')
+
+# ---------------- after the per-ref lock (fix d0a76b7)
+m('C10', B, 'func (ref *subConnRef) gotResp() {\n\tref.mu.Lock()\n\tdefer ref.mu.Unlock()\n', 'func (ref *subConnRef) gotResp() {\n', 'gotResp writes lastResp/refreshCnt without the ref lock (F15b returns)')
+m('C10', B, '\t\tscRef.mu.Lock()\n\t\tscRef.subConn = sc\n\t\tscRef.mu.Unlock()\n', '\t\tscRef.subConn = sc\n', 'swap writes subConn holding only gb.mu (F15a returns)')
+m('C10', P, 'return balancer.PickResult{SubConn: scRef.getSubConn(), Done: callback}, nil', 'return balancer.PickResult{SubConn: scRef.subConn, Done: callback}, nil', 'Pick reads subConn with no lock (F15a returns)')
+m('C10', B, 'func (ref *subConnRef) getLastResp() time.Time {\n\tref.mu.RLock()\n\tdefer ref.mu.RUnlock()\n', 'func (ref *subConnRef) getLastResp() time.Time {\n', 'getter without the lock')
+m('C07', P, '\tif scRef.deCallsInc() >= p.gb.cfg.GetChannelPool().GetUnresponsiveCalls() &&\n\t\tscRef.getLastResp().Before(', '\tlr := scRef.getLastResp()\n\tif scRef.deCallsInc() >= p.gb.cfg.GetChannelPool().GetUnresponsiveCalls() &&\n\t\tlr.Before(', 'last-response time read into a local first', 'silent')
 
 json.dump(T, open('/verif/checker/mutants.json', 'w'), indent=0)
 print(len(T), 'mutants')
